@@ -395,9 +395,11 @@ def text_fresh(chk, fb, RID="R12.5"):
             tr[bi] = ev
         return tr
 
-    def stale_returns(b, refreshers, stale_fns=()):
+    def stale_returns(b, refreshers, stale_fns=(), entry_stale=False):
         tr = events(b, refreshers, stale_fns)
         IN = {bi: False for bi in tr}
+        if entry_stale and 0 in IN:
+            IN[0] = True        # "does it refresh on every path": the caller hands over an expression whose text is out of date
         OUT = {}
         changed = True
         while changed:
@@ -421,7 +423,9 @@ def text_fresh(chk, fb, RID="R12.5"):
     # fixpoint: a call that hands a DeepEx mutably to a function which may return it stale is itself a structural mutation
     stale_fns = set()
     refreshers = set()
+    partial = {}
     for _ in range(8):
+        partial.clear()
         new_stale = set()
         new_ref = set()
         for p, b in fb.bodies.items():
@@ -430,12 +434,21 @@ def text_fresh(chk, fb, RID="R12.5"):
                 new_stale.add(p)
             if refreshes and not stale and b["arg_count"] >= 1 and b["locals"][1]["ty"].startswith("&mut") and "deep::DeepEx<" in b["locals"][1]["ty"]:
                 new_ref.add(p)
+                # callers rely on it after their own mutations: it has to re-derive the text on every path, not only after its own
+                if stale_returns(b, refreshers, stale_fns, entry_stale=True)[2]:
+                    partial[p] = b
         if new_stale == stale_fns and new_ref == refreshers:
             break
         stale_fns, refreshers = new_stale, new_ref
     if not refreshers:
         chk.violation(RID, "anchor", "no function that re-derives the cached text of a DeepEx found")
         return
+    for p, b in sorted(partial.items()):
+        if not [c for c in cg.callers_of(p) if own(c) != own(p)]:
+            continue
+        bi = stale_returns(b, refreshers, stale_fns, entry_stale=True)[2][0]
+        chk.violation(RID, "partial:%s" % own(p).rsplit("::", 1)[-1], "%s is called to re-derive the cached text of a deep expression after a change, but has a path to a return that does not: "
+                      "unparse() / Display / serialisation then print an expression that differs from the one that is evaluated" % p, loc(b["blocks"][bi]["term"]["span"]))
     n = 0
     for p, b in sorted(fb.bodies.items()):
         touched, refreshes, stale = stale_returns(b, refreshers, stale_fns)
